@@ -245,6 +245,9 @@ M = [
 
 def main():
     index = {}
+    # scratch worktree of /repo HEAD outside /repo and /verif; created here, removed at the end
+    subprocess.run(['git', '-C', '/repo', 'worktree', 'remove', '--force', WT], capture_output=True)
+    subprocess.run(['git', '-C', '/repo', 'worktree', 'add', '-q', '--detach', WT, 'HEAD'], check=True)
     for name, pid, path, old, new in M:
         if new is None:
             continue
@@ -265,6 +268,7 @@ def main():
     subprocess.run(['git', '-C', WT, 'checkout', '-q', '--', '.'], check=True)
     json.dump(index, open(os.path.join(OUT, 'index.json'), 'w'), indent=1, sort_keys=True)
     print('wrote', len(index), 'mutants')
+    subprocess.run(['git', '-C', '/repo', 'worktree', 'remove', '--force', WT], capture_output=True)
 
 
 main()
